@@ -120,19 +120,20 @@ type textEdit struct {
 }
 
 type inliner struct {
-	fset    *token.FileSet
-	pkg     *packages.Package
-	round   int
-	counter int
-	callees map[*types.Func]*calleeInfo
-	src     map[string][]byte // file -> current content
-	edits   map[string][]textEdit
-	sites   int
-	log     []string
-	next    ast.Stmt   // the statement that follows the one being examined, in the same list
-	rest    []ast.Stmt // at the top level of a function: all statements after the one being examined
-	deferOK bool       // the current statement is in a position where a deferring helper may be inlined
-	overlay map[string][]byte
+	fset     *token.FileSet
+	pkg      *packages.Package
+	round    int
+	counter  int
+	callees  map[*types.Func]*calleeInfo
+	src      map[string][]byte // file -> current content
+	edits    map[string][]textEdit
+	sites    int
+	log      []string
+	next     ast.Stmt   // the statement that follows the one being examined, in the same list
+	rest     []ast.Stmt // at the top level of a function: all statements after the one being examined
+	deferOK  bool       // the current statement is in a position where a deferring helper may be inlined
+	overlay  map[string][]byte
+	imported map[string]bool // file NUL name: imports added to a caller's file
 }
 
 type calleeInfo struct {
@@ -1102,6 +1103,7 @@ func (in *inliner) expand(file *ast.File, st *site, at token.Pos, mode string, t
 	}
 	// free identifiers of the body must mean the same thing at the call site
 	captureOK := true
+	wantImports := map[string]string{} // package name -> path, to be imported by the caller's file
 	declared := map[types.Object]bool{}
 	ast.Inspect(fd, func(n ast.Node) bool {
 		if id, ok := n.(*ast.Ident); ok {
@@ -1155,7 +1157,10 @@ func (in *inliner) expand(file *ast.File, st *site, at token.Pos, mode string, t
 		switch oo := o.(type) {
 		case *types.PkgName:
 			pn, ok := at2.(*types.PkgName)
-			if !ok || pn.Imported().Path() != oo.Imported().Path() {
+			if at2 == nil && file != nil && oo.Name() == id.Name {
+				// the caller's file does not import the package (and the name is free there): import it
+				wantImports[id.Name] = oo.Imported().Path()
+			} else if !ok || pn.Imported().Path() != oo.Imported().Path() {
 				captureOK = false
 				in.log = append(in.log, "  capture: "+id.Name)
 			}
@@ -1427,6 +1432,16 @@ func (in *inliner) expand(file *ast.File, st *site, at token.Pos, mode string, t
 	b.Write(body)
 	b.WriteString("\n}\n}\n")
 	in.log = append(in.log, fmt.Sprintf("inlined %s (%s) at %s", st.callee.name, mode, in.fset.Position(at)))
+	for name, path := range wantImports {
+		if in.imported == nil {
+			in.imported = map[string]bool{}
+		}
+		if k := callerFile + "\x00" + name; !in.imported[k] {
+			in.imported[k] = true
+			o := in.off(file.Name.End())
+			in.edits[callerFile] = append(in.edits[callerFile], textEdit{o, o, fmt.Sprintf("; import %s %q", name, path)})
+		}
+	}
 	return pre.String() + b.String(), true
 }
 
